@@ -10,6 +10,7 @@ from __future__ import annotations
 
 import ast
 import os
+import pickle
 from dataclasses import dataclass, field
 from typing import Any, Dict, List, Optional, Tuple
 
@@ -165,6 +166,9 @@ def src(node) -> str:
         return "<?>"
 
 
+_TREE_CACHE: Dict[Any, bytes] = {}
+
+
 class Repo:
     def __init__(self, root: str = None, with_examples=True):
         self.root = root or REPO_ROOT
@@ -192,16 +196,30 @@ class Repo:
                 try:
                     with open(path, "r", encoding="utf-8") as fh:
                         source = fh.read()
-                    tree = ast.parse(source, filename=path)
-                except (SyntaxError, UnicodeDecodeError, OSError) as e:
+                except (UnicodeDecodeError, OSError) as e:
                     self.parse_errors.append(f"{path}: {e}")
                     continue
-                if not os.environ.get("NQSA_NO_NORMALISE"):
-                    from . import normalise
+                # parsed + normalised trees are cached per process by content (several properties are evaluated on one tree)
+                key = (name, hash(source), bool(os.environ.get("NQSA_NO_NORMALISE")))
+                blob = _TREE_CACHE.get(key)
+                if blob is not None:
+                    tree = pickle.loads(blob)
+                else:
                     try:
-                        tree = normalise.normalise_module(name, tree)
-                    except RecursionError as e:  # pragma: no cover - defensive
-                        self.parse_errors.append(f"{path}: normalisation failed: {e}")
+                        tree = ast.parse(source, filename=path)
+                    except SyntaxError as e:
+                        self.parse_errors.append(f"{path}: {e}")
+                        continue
+                    if not os.environ.get("NQSA_NO_NORMALISE") and not name.startswith(PKG + ".examples"):
+                        from . import normalise
+                        try:
+                            tree = normalise.normalise_module(name, tree)
+                        except RecursionError as e:  # pragma: no cover - defensive
+                            self.parse_errors.append(f"{path}: normalisation failed: {e}")
+                    try:
+                        _TREE_CACHE[key] = pickle.dumps(tree)
+                    except Exception:  # pragma: no cover - a tree that cannot be pickled is simply not cached
+                        pass
                 m = ModuleInfo(name=name, path=path, tree=tree, source=source)
                 m.is_pkg = fn == "__init__.py"
                 self.modules[name] = m
